@@ -144,6 +144,157 @@ TransformT(t, a) ==
                  m == IF a.axis = "observation" THEN j ELSE i
              IN calls[k].ret[NZRank(Vec(t, a.axis, k), m)])
 
+(*********************** merge / concat / collapse *************************)
+NatSortedSet(S) == SortSeq(SetToSeq(S), LAMBDA x, y : NatRank[x] < NatRank[y])
+\* fast path of merge: sorted ID order, no metadata
+MergeFast(tabs) ==
+  LET oo == NatSortedSet(UnionIds(tabs, "observation"))
+      so == NatSortedSet(UnionIds(tabs, "sample"))
+  IN [obs |-> oo, samp |-> so,
+      mat |-> [i \in 1..Len(oo) |-> [j \in 1..Len(so) |-> SumAt(tabs, oo[i], so[j])]],
+      omd |-> NoMd, smd |-> NoMd, type |-> "", tid |-> ""]
+AnyMd(tabs) == \E k \in 1..Len(tabs) : tabs[k].omd.has \/ tabs[k].smd.has
+MergeMdP(a, b, ax, ids, policy) ==   \* policy "default" (prefer receiver) or "custom" (prefer other)
+  IF policy = "custom" THEN MergeMd(b, a, ax, ids) ELSE MergeMd(a, b, ax, ids)
+MergeModel(tabs, a) ==
+  IF (a.mdf = "none" \/ ~AnyMd(tabs)) /\ a.sample = "union" /\ a.observation = "union"
+  THEN MergeFast(tabs)
+  ELSE LET g == MergeGeneral(tabs[1], tabs[2], a.sample, a.observation) IN
+       [g EXCEPT !.omd = IF a.mdf = "none" THEN [has |-> TRUE, rows |-> [k \in 1..Len(g.obs) |-> <<>>]]
+                         ELSE MergeMdP(tabs[1], tabs[2], "observation", g.obs, a.mdf),
+                 !.smd = IF a.mdf = "none" THEN [has |-> TRUE, rows |-> [k \in 1..Len(g.samp) |-> <<>>]]
+                         ELSE MergeMdP(tabs[1], tabs[2], "sample", g.samp, a.mdf)]
+MdCallsModel(tabs, g, policy) ==
+  LET one(ax, id) ==
+        LET sm == IF Has(tabs[1], ax, id) /\ Md(tabs[1], ax).has THEN Md(tabs[1], ax).rows[Idx(Ids(tabs[1], ax), id)] ELSE <<>>
+            om == IF Has(tabs[2], ax, id) /\ Md(tabs[2], ax).has THEN Md(tabs[2], ax).rows[Idx(Ids(tabs[2], ax), id)] ELSE <<>>
+        IN [axis |-> ax, id |-> id, self_md |-> sm, other_md |-> om,
+            ret |-> IF Has(tabs[2], ax, id) /\ Md(tabs[2], ax).has THEN om ELSE sm]
+  IN [k \in 1..Len(g.samp) |-> one("sample", g.samp[k])] \o [k \in 1..Len(g.obs) |-> one("observation", g.obs[k])]
+
+ConcatModel(tabs, ax) ==
+  LET oth == Other(ax)
+      oo  == NatSortedSet(UnionIds(tabs, oth))
+      ids == ConcatIds(tabs, ax)
+      cell(id, oid) == LET own == tabs[OwnerOf(tabs, ax, id)] IN
+                       IF Has(own, oth, oid) THEN VecOn(own, ax, id, oid) ELSE Zero
+      anymd == \E p \in 1..Len(tabs) : Md(tabs[p], ax).has
+      axmd == IF anymd THEN [has |-> TRUE, rows |-> [k \in 1..Len(ids) |->
+                               LET own == tabs[OwnerOf(tabs, ax, ids[k])] IN
+                               IF Md(own, ax).has THEN Md(own, ax).rows[Idx(Ids(own, ax), ids[k])] ELSE <<>>]]
+              ELSE NoMd
+      \* other-axis metadata comes from the first operand (after padding): rows of its own IDs
+      first == tabs[1]
+      othmd == IF Md(first, oth).has
+               THEN [has |-> TRUE, rows |-> [m \in 1..Len(oo) |->
+                        IF Has(first, oth, oo[m]) THEN Md(first, oth).rows[Idx(Ids(first, oth), oo[m])]
+                        ELSE LET ow == CHOOSE p \in 1..Len(tabs) : Has(tabs[p], oth, oo[m]) IN
+                             IF Md(tabs[ow], oth).has THEN Md(tabs[ow], oth).rows[Idx(Ids(tabs[ow], oth), oo[m])] ELSE <<>>]]
+               ELSE NoMd
+  IN IF ax = "observation"
+     THEN [obs |-> ids, samp |-> oo, mat |-> [k \in 1..Len(ids) |-> [m \in 1..Len(oo) |-> cell(ids[k], oo[m])]],
+           omd |-> axmd, smd |-> othmd, type |-> tabs[1].type, tid |-> ""]
+     ELSE [obs |-> oo, samp |-> ids, mat |-> [m \in 1..Len(oo) |-> [k \in 1..Len(ids) |-> cell(ids[k], oo[m])]],
+           omd |-> othmd, smd |-> axmd, type |-> tabs[1].type, tid |-> ""]
+
+\* labelling functions: [id, label, none]
+LabelFor(a, t, ax, k) ==
+  LET id == Ids(t, ax)[k]
+      row == RowAt(t, ax, k)
+      mdv == IF \E e \in row : e[1] = "k1" /\ e[2] = "s"
+             THEN (CHOOSE e \in row : e[1] = "k1" /\ e[2] = "s")[3][1] ELSE "nomd"
+  IN CASE a.f = "by_md"      -> [id |-> id, label |-> "g_" \o mdv, none |-> FALSE]
+       [] a.f = "constant"   -> [id |-> id, label |-> "gc", none |-> FALSE]
+       [] a.f = "injective"  -> [id |-> id, label |-> "g_" \o id, none |-> FALSE]
+       [] a.f = "parity"     -> [id |-> id, label |-> IF NatRank[id] % 2 = 0 THEN "g0" ELSE "g1", none |-> FALSE]
+       [] a.f = "first_none" -> [id |-> id, label |-> "g1", none |-> (k = 1)]
+       [] a.f = "dict_id2grp" -> [id |-> id, label |-> IF k % 2 = 0 THEN "g0" ELSE "g1", none |-> FALSE]
+       [] a.f = "dict_grp2ids" -> [id |-> id, label |-> IF k = 1 THEN "g1" ELSE "g0", none |-> FALSE]
+       [] OTHER -> [id |-> id, label |-> "gc", none |-> FALSE]
+LabelsModel(a, t) == [k \in 1..Len(Ids(t, a.axis)) |-> LabelFor(a, t, a.axis, k)]
+\* distinct labels in order of first appearance
+RECURSIVE FirstSeen(_, _)
+FirstSeen(labels, seen) ==
+  IF labels = <<>> THEN <<>>
+  ELSE LET h == Head(labels)
+           key == <<h.none, IF h.none THEN "" ELSE h.label>>
+       IN IF key \in seen THEN FirstSeen(Tail(labels), seen)
+          ELSE <<h>> \o FirstSeen(Tail(labels), seen \cup {key})
+PartsModel(a, t) ==
+  LET labels == LabelsModel(a, t)
+      use == SelectSeq(labels, LAMBDA x : ~(a.ignore_none /\ x.none))
+      keys == FirstSeen(use, {})
+  IN [p \in 1..Len(keys) |->
+        LET mem == {x.id : x \in {labels[k] : k \in {q \in 1..Len(labels) :
+                        labels[q].none = keys[p].none /\ (keys[p].none \/ labels[q].label = keys[p].label)
+                        /\ ~(a.ignore_none /\ labels[q].none)}}}
+            part == FilterIds(t, mem, a.axis, FALSE)
+        IN [label |-> keys[p].label, none |-> keys[p].none,
+            t |-> Fresh(IF a.remove_empty THEN RemoveEmpty(part, "whole") ELSE part)]]
+
+CollapseModel(a, t) ==
+  LET ax == a.axis
+      oth == Other(ax)
+      labels == LabelsModel(a, t)
+      keys0 == FirstSeen(labels, {})
+      keys == SelectSeq(keys0, LAMBDA x : Cardinality(Members(labels, x.label)) >= a.min_group_size)
+      ids == [p \in 1..Len(keys) |-> keys[p].label]
+      cell(L, oid) == LET mem == Members(labels, L)
+                          s == SumOverSet(mem, [id \in mem |-> VecOn(t, ax, id, oid)])
+                      IN IF a.norm THEN DivNat(s, Cardinality(mem)) ELSE s
+      md == IF a.include_collapsed_metadata
+            THEN [has |-> TRUE, rows |-> [p \in 1..Len(ids) |->
+                     <<<<"collapsed_ids", "l", SelectSeq(Ids(t, ax), LAMBDA x : x \in Members(labels, ids[p]))>>>>]]
+            ELSE NoMd
+  IN IF ax = "observation"
+     THEN [obs |-> ids, samp |-> t.samp, mat |-> [k \in 1..Len(ids) |-> [m \in 1..Len(t.samp) |-> cell(ids[k], t.samp[m])]],
+           omd |-> md, smd |-> t.smd, type |-> t.type, tid |-> t.tid]
+     ELSE [obs |-> t.obs, samp |-> ids, mat |-> [m \in 1..Len(t.obs) |-> [k \in 1..Len(ids) |-> cell(ids[k], t.obs[m])]],
+           omd |-> t.omd, smd |-> md, type |-> t.type, tid |-> t.tid]
+
+CollapseOtmModel(a, t) ==
+  LET ax == a.axis
+      oth == Other(ax)
+      gs == a.groups
+      S == SeqSet(Ids(t, ax))
+      ids == NatSortedSet(AllGroups(gs, Ids(t, ax)))
+      cell(g, oid) == SumOverSet(S, [id \in S |->
+                         LET w == Mul(VecOn(t, ax, id, oid), R(Mult(gs, id, g))) IN
+                         IF a.mode = "divide" /\ Len(GroupsOf(gs, id)) > 0 THEN DivNat(w, Len(GroupsOf(gs, id))) ELSE w])
+      md == [has |-> TRUE, rows |-> [p \in 1..Len(ids) |-> <<<<"Path", "l", <<ids[p]>>>>>>]]
+  IN IF ax = "observation"
+     THEN [obs |-> ids, samp |-> t.samp, mat |-> [k \in 1..Len(ids) |-> [m \in 1..Len(t.samp) |-> cell(ids[k], t.samp[m])]],
+           omd |-> md, smd |-> t.smd, type |-> t.type, tid |-> t.tid]
+     ELSE [obs |-> t.obs, samp |-> ids, mat |-> [m \in 1..Len(t.obs) |-> [k \in 1..Len(ids) |-> cell(ids[k], t.obs[m])]],
+           omd |-> t.omd, smd |-> md, type |-> t.type, tid |-> t.tid]
+
+\* one allowed outcome of subsampling (the first n unit counts of every vector / the first n IDs)
+RECURSIVE TakeUnits(_, _)
+TakeUnits(vec, n) ==
+  IF vec = <<>> THEN <<>>
+  ELSE LET c == Head(vec)[1]
+           k == IF c < n THEN c ELSE n
+       IN <<R(k)>> \o TakeUnits(Tail(vec), n - k)
+SubsampleModel(a, t) ==
+  LET ax == a.axis
+      ids == Ids(t, ax)
+  IN IF a.by_id
+     THEN RemoveEmpty(Take(t, ax, IdxSeq(Min2(a.n, Len(ids)))), Other(ax))
+     ELSE LET keepIdx == SelectSeq(IdxSeq(Len(ids)), LAMBDA k :
+                            IF a.with_replacement THEN IsPos(VecSum(Vec(t, ax, k)))
+                            ELSE Leq(R(a.n), VecSum(Vec(t, ax, k))))
+              kept == Take(t, ax, keepIdx)
+              \* with replacement: put all n draws on the first non-zero entry
+              newvec(v) == IF a.with_replacement
+                           THEN [m \in 1..Len(v) |-> IF m = (CHOOSE q \in 1..Len(v) : ~IsZero(v[q]) /\ \A r \in 1..(q - 1) : IsZero(v[r]))
+                                                      THEN R(a.n) ELSE Zero]
+                           ELSE TakeUnits(v, a.n)
+              drawn == IF ax = "observation"
+                       THEN [kept EXCEPT !.mat = [i \in 1..Len(kept.obs) |-> newvec(kept.mat[i])]]
+                       ELSE LET cols == [j \in 1..Len(kept.samp) |-> newvec(Col(kept, j))] IN
+                            [kept EXCEPT !.mat = [i \in 1..Len(kept.obs) |-> [j \in 1..Len(kept.samp) |-> cols[j][i]]]]
+          IN RemoveEmpty(drawn, Other(ax))
+
 (***************************** model events ******************************)
 NatSorted(ids) == SortSeq(ids, LAMBDA x, y : NatRank[x] < NatRank[y])
 SortF(f, ids) ==
@@ -216,6 +367,29 @@ ModelEvent(h, st) ==
      [] st.call = "pa" -> InplaceEv(st, h, TRUE, Fresh(PA(pre)))
      [] st.call = "rankdata" ->
           InplaceEv(st, h, TRUE, Fresh(RankT(pre, a.axis, IF a.method = "ordinal" THEN "ordinal_model" ELSE a.method)))
+     [] st.call = "merge" ->
+          LET tabs == <<pre>> \o [k \in 1..Len(a.others) |-> h[a.others[k]]]
+              wantS == IF a.sample = "union" THEN UnionIds(tabs, "sample") ELSE InterIds(tabs, "sample")
+              wantO == IF a.observation = "union" THEN UnionIds(tabs, "observation") ELSE InterIds(tabs, "observation")
+              r == Fresh(MergeModel(tabs, a))
+          IN NewEv(st, h, wantS # {} /\ wantO # {} /\ \A k \in 1..Len(tabs) : ~IsEmptyTable(tabs[k]), r,
+                   [ret_is_recv |-> FALSE, alt_ran |-> FALSE, alt_out |-> "ok", alt |-> r,
+                    mdcalls |-> IF a.mdf = "custom" /\ Len(tabs) = 2 THEN MdCallsModel(tabs, r, a.mdf) ELSE <<>>])
+     [] st.call = "concat" ->
+          LET tabs == <<pre>> \o [k \in 1..Len(a.others) |-> h[a.others[k]]] IN
+          NewEv(st, h, ConcatDisjoint(tabs, a.axis) /\ \A k \in 1..Len(tabs) : ~IsEmptyTable(tabs[k]),
+                Fresh(ConcatModel(tabs, a.axis)), [ret_is_recv |-> FALSE])
+     [] st.call = "partition" ->
+          Ev(st, h, h, "ok", [labels |-> LabelsModel(a, pre), parts |-> PartsModel(a, pre)])
+     [] st.call = "collapse" ->
+          IF a.one_to_many
+          THEN NewEv(st, h, Md(pre, a.axis).has /\ AllGroups(a.groups, Ids(pre, a.axis)) # {},
+                     Fresh(CollapseOtmModel(a, pre)), [ret_is_recv |-> FALSE, labels |-> <<>>])
+          ELSE LET r == Fresh(CollapseModel(a, pre)) IN
+               NewEv(st, h, Len(Ids(r, a.axis)) > 0, r, [ret_is_recv |-> FALSE, labels |-> LabelsModel(a, pre)])
+     [] st.call = "subsample" ->
+          LET r == Fresh(SubsampleModel(a, pre)) IN
+          NewEv(st, h, TRUE, r, [ret_is_recv |-> FALSE, again_out |-> "ok", again |-> r])
      [] OTHER -> Ev(st, h, h, "error", [nothing |-> TRUE])
 
 (************************** argument alphabets ***************************)
@@ -342,6 +516,49 @@ StepsFor(call, h, recv, res, full) ==
          {St(call, recv, res, [axis |-> ax, inplace |-> ip, method |-> m]) :
             ax \in Axes, ip \in BOOLEAN,
             m \in (IF full THEN {"average", "min", "max", "dense", "ordinal"} ELSE {"average"})}
+    [] call = "merge" ->
+         IF "b" \notin DOMAIN h \/ recv = "b" THEN {}
+         ELSE {St(call, recv, res, [others |-> <<"b">>, sample |-> sm, observation |-> om, mdf |-> f]) :
+                 sm \in {"union", "intersection"}, om \in {"union", "intersection"},
+                 f \in (IF full THEN {"default", "none", "custom"} ELSE {"default"})}
+              \cup (IF "c" \in DOMAIN h /\ ~AnyMd(<<h[recv], h["b"], h["c"]>>)
+                    THEN {St(call, recv, res, [others |-> <<"b", "c">>, sample |-> "union", observation |-> "union",
+                                                mdf |-> "none"])}
+                    ELSE {})
+    [] call = "concat" ->
+         IF "b" \notin DOMAIN h \/ recv = "b" THEN {}
+         ELSE {St(call, recv, res, [others |-> o, axis |-> ax, via |-> v]) :
+                 o \in ({<<"b">>} \cup (IF "c" \in DOMAIN h THEN {<<"b", "c">>, <<"c", "b">>} ELSE {})
+                                 \cup (IF full THEN {<<>>} ELSE {})),
+                 ax \in Axes, v \in (IF full THEN {"method", "biom.concat", "single"} ELSE {"method"})}
+    [] call = "partition" ->
+         {St(call, recv, recv, [f |-> f, axis |-> ax, remove_empty |-> re, ignore_none |-> ig]) :
+            f \in (IF full THEN {"by_md", "constant", "injective", "parity", "first_none", "dict_id2grp", "dict_grp2ids"}
+                   ELSE {"parity", "first_none"}),
+            ax \in Axes, re \in BOOLEAN, ig \in (IF full THEN BOOLEAN ELSE {TRUE})}
+    [] call = "collapse" ->
+         {St(call, recv, res, [f |-> f, axis |-> ax, norm |-> nm, min_group_size |-> mg, include_collapsed_metadata |-> ic,
+                               one_to_many |-> FALSE, mode |-> "add", groups |-> <<>>, strict |-> FALSE]) :
+            f \in (IF full THEN {"by_md", "constant", "injective", "parity", "dict_id2grp"} ELSE {"parity"}),
+            ax \in Axes, nm \in BOOLEAN, mg \in (IF full THEN {1, 2} ELSE {1}), ic \in (IF full THEN BOOLEAN ELSE {TRUE})}
+         \cup
+         UNION {
+           LET ids == Ids(t, ax)
+               G(k) == CASE k % 4 = 1 -> <<"gA">> [] k % 4 = 2 -> <<"gA", "gB">> [] k % 4 = 3 -> <<"gB", "gB", "gC">> [] OTHER -> <<>>
+               H(k) == CASE k % 3 = 1 -> <<"gB", "gA", "gB">> [] k % 3 = 2 -> <<>> [] OTHER -> <<"gC">>
+               maps == IF full THEN {[k \in 1..Len(ids) |-> <<ids[k], G(k)>>], [k \in 1..Len(ids) |-> <<ids[k], H(k)>>],
+                                     [k \in 1..Len(ids) |-> <<ids[k], <<"gA">>>>]}
+                       ELSE {[k \in 1..Len(ids) |-> <<ids[k], G(k)>>]}
+           IN {St(call, recv, res, [f |-> "pathways", axis |-> ax, norm |-> FALSE, min_group_size |-> 1,
+                                    include_collapsed_metadata |-> TRUE, one_to_many |-> TRUE, mode |-> md,
+                                    groups |-> gm, strict |-> FALSE]) : gm \in maps, md \in {"add", "divide"}}
+           : ax \in Axes}
+    [] call = "subsample" ->
+         {St(call, recv, res, [n |-> n, axis |-> ax, by_id |-> bi, with_replacement |-> wr, seed |-> sd]) :
+            n \in (IF full THEN {1, 2, 3, 5, 9} ELSE {2}), ax \in Axes,
+            bi \in BOOLEAN, wr \in BOOLEAN, sd \in (IF full THEN {0, 1, 7} ELSE {0})}
+         \ {x \in {St(call, recv, res, [n |-> n, axis |-> ax, by_id |-> TRUE, with_replacement |-> TRUE, seed |-> sd]) :
+                     n \in {1, 2, 3, 5, 9}, ax \in Axes, sd \in {0, 1, 7}} : TRUE}
     [] OTHER -> {}
 
 (****************************** the machine ******************************)
